@@ -11,8 +11,21 @@ Record case := mkCase {
   k_stdout : list bytes;
   k_dirs : list (bytes * list (bytes * entry));   (* every buildpack directory below <package-dir>/<target>/<profile>
                                                      that is new or changed: absolute path, sorted entries *)
-  k_untouched : bool        (* everything else below the package directory is byte-identical to before *)
+  k_untouched : bool;       (* everything else below the package directory is byte-identical to before *)
+  k_order : list bytes      (* ids in the order the tool announced packaging them ("[i/n] Building <id>") *)
 }.
+
+(* every buildpack is packaged after the workspace buildpacks it depends on *)
+Definition order_ok (ws : list bp) (order : list bytes) : bool :=
+  (fix go (seen l : list bytes) : bool :=
+     match l with
+     | [] => true
+     | id :: r =>
+         match find_bp id ws with
+         | Some x => forallb (fun d => mem_id d seen || negb (mem_id d (map b_id ws))) (lib_deps x)
+         | None => true
+         end && go (id :: seen) r
+     end) [] order.
 
 Definition entry_eqb (x y : entry) : bool :=
   match x, y with
@@ -36,6 +49,7 @@ Definition holds (c : case) : bool :=
   if run_ok i ws then
     k_exit_ok c &&
     list_eqb beq (k_stdout c) (stdout_lines i ws) &&
+    order_ok (filter packable ws) (k_order c) &&
     (* exactly the selected buildpacks have a (re)written directory, each holding exactly its tree *)
     Nat.eqb (List.length (k_dirs c)) (List.length (selected i ws)) &&
     forallb (fun id => match find_bp id (filter packable ws) with
